@@ -366,7 +366,7 @@ def check_generate(case):
 
 
 CLAUSES = [
-    Clause("eq", pair_cases(), check_pair, quick=20000, thorough=200000, quick_shards=4),
+    Clause("eq", pair_cases(), check_pair, quick=20000, thorough=50000, quick_shards=4),
     Clause("containers", pool_cases(), check_containers, quick=3000, thorough=40000, quick_shards=2),
     Clause("sites", pool_cases(), check_sites, quick=2000, thorough=20000, quick_shards=2),
     Clause("generate", generate_cases(), check_generate, quick=600, thorough=6000, quick_shards=2),
